@@ -311,13 +311,21 @@ void TaskScheduler::WaitForTasks( uint32_t threadNum )
 
 void TaskScheduler::WakeThreads(  int32_t maxToWake_ )
 {
-    if( maxToWake_ > 0 && maxToWake_  < m_NumThreadsWaiting )
+    // The caller has just published a task (store to a pipe's write index) and
+    // now checks for sleeping threads, while WaitForTasks() publishes
+    // m_NumThreadsWaiting and then checks the pipes. This needs a full fence
+    // between our store and this load (a plain load may be satisfied before
+    // the store leaves the store buffer): otherwise both sides can miss each
+    // other and the thread sleeps with a task pending. AtomicAdd is a full
+    // barrier (as is the increment in WaitForTasks()).
+    int32_t numWaiting = AtomicAdd( &m_NumThreadsWaiting, 0 );
+    if( maxToWake_ > 0 && maxToWake_  < numWaiting )
     {
         SemaphoreSignal( m_NewTaskSemaphore, maxToWake_ );
     }
     else
     {
-        SemaphoreSignal( m_NewTaskSemaphore, m_NumThreadsWaiting );
+        SemaphoreSignal( m_NewTaskSemaphore, numWaiting );
     }
 }
 
